@@ -1,5 +1,6 @@
 """C20 - offline stream filtering equals live filtering and is isolated."""
 import ast
+import re
 
 from .entries import make_interp, prematerialise, Path
 from .pathfacts import Facts, live_alts, classify
@@ -127,6 +128,18 @@ def isolation_rule(ctx, I):
         for e in s.trace:
             if e[0] == 'write' and str(e[4]).startswith('LIVE'):
                 ctx.report('C20.R1', where, 'writes live object %s.%s' % (e[4], e[2]), 'construction modifies the live plugin')
+        # the private copy starts out equal to the live state: creating the processor (and its handlers) changes nothing in it
+        ctx.instance('C20.R8', repr(v))
+        for e in s.trace:
+            if (e[0] == 'write' and str(e[4]).startswith('deepcopy(LIVE')) or \
+                    ((e[0].startswith('seq-') or e[0].startswith('map-')) and str(e[1]).startswith('deepcopy(LIVE')):
+                what = '%s.%s' % (e[4], e[2]) if e[0] == 'write' else '%s (%s)' % (e[1], e[0])
+                ctx.report('C20.R8', e[5] if e[0] == 'write' and isinstance(e[5], str) else where,
+                           'construction writes the copied state: %s' % re.sub(r'#\d+', '', what.replace('deepcopy(LIVE.state)', 'copy')),
+                           'the offline filter must continue from the live state it was created from (position, modes, units, '
+                           'open episode, owed recovery); something on the construction path re-initialises the copy, so the '
+                           'file is filtered from a different state than the live hooks would use')
+                break
         h = s.heap.get((v.oid, 'gcodeHandlers'))
         if not (isinstance(h, Obj) and ('fresh', h.oid) in s.flags):
             ctx.report('C20.R1', where, 'handlers not private', 'the processor does not create its own GcodeHandlers')
@@ -274,6 +287,8 @@ def line_rules(ctx, I):
 
 def run(ctx, tier):
     declare(ctx)
+    ctx.rule('C20.R8', 'the processor\'s private copy starts out equal to the live state: nothing on the construction path (the '
+                       'processor, its own GcodeHandlers, its comm stub) writes into the copied state', floor=1)
     ctx.rule('C20.R7', 'the one parser instance the processor (and the handlers) share carries nothing from line to line: '
                        'parse() re-assigns every attribute a reader uses, on every path', floor=10)
     from . import rules_c18
